@@ -10,6 +10,8 @@ real state file) driven one model step at a time along schedules chosen by the e
   check_observed(...)   svdriver check: every differing observation per schedule + ghost facts of the model's own run
   oracle_C05/06/09/11   the properties' own oracles, written from the property texts, evaluated on the REAL traces
                         (they do not read the model's output)
+  trace_predicates(...) svdriver trace: the trace predicates of coq/Model/SvTrace.v (extracted Gallina, PROVED of every run of Msv:
+                        Proofs/SvTraceP.v) evaluated on the REAL observations of every schedule, next to the Python oracles
   selftest_oracle(...)  the same oracles evaluated on the observations the proved model predicts for the same schedules:
                         a rejection outside the known-finding signatures means the oracle is wrong
   run_property(ctx, prop, tier=None)
@@ -72,7 +74,7 @@ def unhx(s):
 def build_driver(ctx):
     drv = SV / "svdriver"
     with Lock("ocaml-sv"):
-        srcs = [VERIF / "coq" / "Model" / f for f in ("Sv.vo", "Seq.vo", "Base.vo", "Err.vo")] + [VERIF / "coq" / "Proofs" / "SvDefs.vo", SV / "driver.ml",
+        srcs = [VERIF / "coq" / "Model" / f for f in ("Sv.vo", "SvTrace.vo", "Seq.vo", "Base.vo", "Err.vo")] + [VERIF / "coq" / "Proofs" / "SvDefs.vo", SV / "driver.ml",
                                                                                                  VERIF / "coq" / "Extract" / "SvExtract.v"]
         missing = [str(s) for s in srcs if not s.exists()]
         if missing:
@@ -741,6 +743,104 @@ def check_observed(ctx, b, dirs):
     return res
 
 
+
+# ------------------------------------------------------------------------- the extracted Coq trace predicates
+
+# predicate of Model/SvTrace.v (field of `svdriver trace`) -> (property, theorem of Proofs/SvTraceP.v that proves it of every run of Msv)
+TRACE_PREDS = {"unlock": ("C05", "svtrace_c05_unlock"), "renew": ("C05", "svtrace_c05_renew"),
+               "c06": ("C06", "svtrace_c06_release (outside sig_fleak)"), "c06f": ("C06", "svtrace_c06_release_or_fleak_w"),
+               "live": ("C09", "svtrace_c09_image"), "ended": ("C09", "svtrace_c09_image"), "bound": ("C09", "svtrace_c09_image"),
+               "surplus": ("C09", "svtrace_c09_surplus"), "over": ("C09", "- (refutable: C09_over_refuted, finding F-OVER)"),
+               "keeps": ("C11", "svtrace_c11_keeps")}
+TRACE_PRED_TEXT = {
+    "unlock": "q_c05_unlock: an Unlock has answered unlocked=true, its (name,key) is in the lock table and no lease callback of it is parked before its unlock step",
+    "renew": "q_c05_renew: a Renew answered locked=true and its (name,key) is not in the lock table before and after that step, or its timer key is not armed after it",
+    "c06": "q_c06_release: the session-end goroutine has finished (it had deleted the session) and an acknowledged hold of the session is still in the lock table with no expiry pending",
+    "c06f": "q_c06_release_or_fleak: as q_c06_release, and the step log does not show the F-LEAK signature (AddLock of a call of the session after the delete)",
+    "live": "q_c09_image (live): a hold whose grant was answered, with no Unlock invoked, no lease callback and its session not ended, is not in the image under its session",
+    "ended": "q_c09_image (ended): a hold whose Unlock answered unlocked=true is in the image",
+    "bound": "q_c09_image (bound): the image lists more LIVE holds of a lock than its size",
+    "surplus": "q_c09_surplus_in_flight: a listed hold that is not in the lock table has no Unlock parked at RemoveLock and no lease callback parked at RemoveLock",
+    "over": "the image lists more holds of a lock than its size (F-OVER's shape)",
+    "keeps": "q_c11_keeps: after PrepareShutdown a session end released from its flag check did not end at once, or an entry left the lock table / "
+             "listing / image other than through the Unlock / expiry of that hold or a session end that had passed its flag check"}
+PRED_ORDER = ["unlock", "renew", "c06", "c06f", "live", "ended", "bound", "surplus", "over", "keeps"]
+
+
+def trace_predicates(ctx, b, dirs, fname="observed.txt"):
+    """svdriver trace over every observed.txt -> {sid: dict(n=transitions, noclear, verdict={pred: None | (transition index, item k)}, fleak=bool, bad=[..])}"""
+    res = {}
+    for d in dirs:
+        ob = Path(d) / fname if Path(d).is_dir() else Path(d)
+        if not ob.exists():
+            continue
+        try:
+            rc, out = sh([str(b["driver"]), "trace", str(ob)], cwd=ob.parent, timeout=600)
+        except Exception as ex:  # noqa
+            rc, out = 1, "svdriver trace: %r" % (ex,)
+        if Path(d).is_dir():
+            (Path(d) / "trace_verdict.txt").write_text(out)
+        for line in out.splitlines():
+            f = line.split()
+            if len(f) < 3 or f[0] not in ("Q", "QB"):
+                continue
+            r = res.setdefault(f[1], dict(n=0, noclear=False, verdict={}, fleak=False, bad=[]))
+            try:
+                if f[0] == "QB":
+                    r["bad"].append(" ".join(f[2:]))
+                    continue
+                r["n"] = int(f[2])
+                for kv in f[3:]:
+                    k, v = kv.split("=", 1)
+                    if k == "noclear":
+                        r["noclear"] = v == "1"
+                    elif k == "fleak":
+                        r["fleak"] = v == "1"
+                    else:
+                        r["verdict"][k] = None if v == "-" else tuple(int(x) for x in v.split("@"))
+            except (ValueError, IndexError):
+                r["bad"].append("unreadable verdict line: " + line[:200])
+    return res
+
+
+def judge_predicates(prop, sid, t, tps):
+    """The verdicts of the extracted predicates of `prop` on one REAL schedule -> (violations [(idx, text)], known [(fid, text)]).
+    A false predicate is a violation of `prop` exactly like a failure of the Python oracle, except for the two recorded findings:
+      C06  q_c06_release false while q_c06_release_or_fleak holds = the step log shows the F-LEAK signature (svtrace_c06_release has that premise)
+      C09  the F-OVER shape (more entries than the size) while q_c09_image's bound and q_c09_surplus_in_flight hold = every surplus entry is a
+           hold already released whose RemoveLock is in flight = F-OVER."""
+    viol, known = [], []
+    if t is None:
+        return viol, known
+    tps["schedules"] += 1
+    tps["transitions"] += t["n"]
+    if t["bad"]:
+        tps["not_fully_represented"] += 1
+    v = t["verdict"]
+    for pred in PRED_ORDER:
+        if TRACE_PREDS[pred][0] != prop or pred not in v:
+            continue
+        tps["evaluated"][pred] = tps["evaluated"].get(pred, 0) + 1
+        val = v[pred]
+        if val is None:
+            continue
+        tps["false"][pred] = tps["false"].get(pred, 0) + 1
+        text = ("extracted Coq predicate %s (first offending transition %d = item %d; proved of every run of the model: %s)"
+                % (TRACE_PRED_TEXT[pred], val[0], val[1] if len(val) > 1 else -1, TRACE_PREDS[pred][1]))
+        if pred == "c06":
+            if v.get("c06f") is None and t["fleak"]:
+                known.append(("F-LEAK", text + "; the step log shows the signature sess_add_after_destroy (sig_fleak)"))
+                continue
+            continue        # reported through c06f below
+        if pred == "over":
+            if v.get("bound") is None and v.get("surplus") is None:
+                known.append(("F-OVER", text + "; the surplus entries are listed holds that are out of the lock table with their RemoveLock in flight "
+                                               "(q_c09_surplus_in_flight and the live bound hold: signature grant_persisted_before_previous_remove)"))
+            continue        # otherwise bound / surplus are false as well and are reported
+        viol.append((val[1] if len(val) > 1 else -1, text))
+    return viol, known
+
+
 # ------------------------------------------------------------------------------------------------------- helpers
 
 def _acquirers(run):
@@ -1065,6 +1165,12 @@ def execute(ctx, b, sched_file, name, procs=8, timeout=300, xsplit=-1, net_sync=
     for d in rr["dirs"]:
         runs.update(parse_observed(d / "observed.txt"))
     chk = check_observed(ctx, b, rr["dirs"])
+    try:
+        tp = trace_predicates(ctx, b, rr["dirs"])
+    except Exception as ex:  # noqa
+        tp = {}
+        if ctx is not None:
+            ctx.note("T2-svsched: svdriver trace failed: %r" % (ex,))
     images, untested = load_images(rr["dirs"])
     reached = {}
     for d in rr["dirs"]:
@@ -1074,22 +1180,51 @@ def execute(ctx, b, sched_file, name, procs=8, timeout=300, xsplit=-1, net_sync=
         except Exception:
             pass
     return dict(runs=runs, chk=chk, failures=rr["failures"], reached=reached, schedules=rr["schedules"], abandoned=rr["abandoned"], images=images,
-                untested_images=untested, dirs=list(rr["dirs"]))
+                untested_images=untested, dirs=list(rr["dirs"]), tp=tp)
 
 
-def judge(prop, runs, chk, failures, images, compare=True):
-    """-> dict(violations=[(sid, idx, text)], known=[(sid, fid, text)], mismatches=[(sid, k, kind, text)], label_only=n)."""
+def new_tps():
+    return dict(schedules=0, transitions=0, not_fully_represented=0, evaluated={}, false={}, python_oracle_failed=0,
+                python_oracle_and_predicate_failed=0, predicate_failed_only=0, known_finding_shaped=0)
+
+
+def judge(prop, runs, chk, failures, images, compare=True, tp=None, tps=None, tp_prefix=""):
+    """-> dict(violations=[(sid, idx, text)], known=[(sid, fid, text)], mismatches=[(sid, k, kind, text)], label_only=n, tp=statistics of the
+    extracted Coq trace predicates). tp: trace_predicates(...) keyed by the schedule id as the harness wrote it (tp_prefix + that id = key of
+    `runs`). A predicate of `prop` that is false on a REAL trace is a violation of `prop` like a failure of the Python oracle; the two
+    recorded findings are recognised by their signatures (judge_predicates)."""
     proj = PROJ.get(prop, {"bit", "table", "crash", "hang", "fatal"})
     oracle = ORACLES[prop]
     viol, known, mism = [], [], []
     label_only = 0
+    tps = tps if tps is not None else new_tps()
     for sid, run in sorted(runs.items()):
         c = chk.get(sid, {})
+        py_fail = False
+        n_before = len(viol)
         for idx, text, fid in oracle(run, images):
             if fid is not None and fid == KNOWN_OF.get(prop):
                 known.append((sid, fid, text))
             else:
                 viol.append((sid, idx, text))
+                py_fail = True
+        t = (tp or {}).get(sid[len(tp_prefix):] if tp_prefix and sid.startswith(tp_prefix) else sid)
+        if t is not None:
+            pv, pk = judge_predicates(prop, sid, t, tps)
+            for fid, text in pk:
+                tps["known_finding_shaped"] += 1
+                if fid == KNOWN_OF.get(prop):
+                    known.append((sid, fid, text))
+                else:
+                    pv.append((-1, text))
+            if pv and py_fail:
+                sid0, idx0, text0 = viol[n_before]
+                viol[n_before] = (sid0, idx0, text0 + " || ALSO: " + " || ".join(x[1] for x in pv))
+            else:
+                viol += [(sid, idx, text) for idx, text in pv]
+            tps["python_oracle_failed"] += 1 if py_fail else 0
+            tps["python_oracle_and_predicate_failed"] += 1 if (py_fail and pv) else 0
+            tps["predicate_failed_only"] += 1 if (pv and not py_fail) else 0
         if not compare:
             continue
         hit = False
@@ -1104,7 +1239,7 @@ def judge(prop, runs, chk, failures, images, compare=True):
     if compare:
         for f in failures:
             mism.append((f["sid"], f["k"], f["kind"], f["text"][-600:]))
-    return dict(violations=viol, known=known, mismatches=mism, label_only=label_only)
+    return dict(violations=viol, known=known, mismatches=mism, label_only=label_only, tp=tps)
 
 
 def _fname(sid):
@@ -1127,6 +1262,7 @@ def run_property(ctx, prop, tier=None, scenarios=None, procs=8):
     scs = scenarios if scenarios is not None else load_scenarios(prop)
     t0 = time.time()
     runs, chk, failures, reached, images, untested = {}, {}, [], {}, {}, []
+    tp = {}          # verdicts of the extracted Coq trace predicates per schedule (trace_predicates)
     cq_dirs = []     # directories whose observed.txt / verdict.txt lib/coqeval.py samples
     tmo = 300 if tier == "quick" else 3000
 
@@ -1135,6 +1271,7 @@ def run_property(ctx, prop, tier=None, scenarios=None, procs=8):
             v.sid = prefix + k
             runs[prefix + k] = v
         chk.update({prefix + k: v for k, v in e["chk"].items()})
+        tp.update({prefix + k: v for k, v in e.get("tp", {}).items()})
         images.update(e["images"])
         untested.extend(e["untested_images"])
         for k, v in e["reached"].items():
@@ -1159,7 +1296,8 @@ def run_property(ctx, prop, tier=None, scenarios=None, procs=8):
     failures += e["failures"]
     cq_dirs += e["dirs"]
     abandoned = e.get("abandoned", 0)
-    j = judge(prop, runs, chk, failures, images)
+    tps = new_tps()
+    j = judge(prop, runs, chk, failures, images, tp=tp, tps=tps)
 
     # exhibit runs (oracles only; the schedule is then not the model's):
     #  - sentinel yield points inside timermap.Reset were placed (its critical section is split): park there
@@ -1172,16 +1310,17 @@ def run_property(ctx, prop, tier=None, scenarios=None, procs=8):
         xmodes += [("ns", dict(net_sync=True))]
     n_exhibit = 0
     for tag, kw in xmodes:
-        xr, xc, xi = {}, {}, {}
+        xr, xc, xi, xt = {}, {}, {}, {}
         for n_, f_ in enumerate(files):
             e2 = execute(ctx, b, f_, "x-%s-%s-%d" % (tag, prop, n_), procs=procs, timeout=tmo, **kw)
             for k, v in e2["runs"].items():
                 v.sid = "%s:%s" % (tag, k)
                 xr[v.sid] = v
             xc.update({"%s:%s" % (tag, k): v for k, v in e2["chk"].items()})
+            xt.update({"%s:%s" % (tag, k): v for k, v in e2.get("tp", {}).items()})
             xi.update(e2["images"])
         n_exhibit += len(xr)
-        j2 = judge(prop, xr, xc, [], xi, compare=False)
+        j2 = judge(prop, xr, xc, [], xi, compare=False, tp=xt, tps=tps)
         j["violations"] += j2["violations"]
         j["known"] += j2["known"]
         runs.update(xr)
@@ -1204,6 +1343,35 @@ def run_property(ctx, prop, tier=None, scenarios=None, procs=8):
                               "model trace is wrong; nothing may be concluded from this run" % prop},
                       "oracle self-test: the Python oracle of %s rejects a trace of the proved model (schedule %s item %d: %s)" % (prop, sid, idx, text[:300]),
                       name="t2sv_oracle_selftest_%s.json" % _fname(sid), no_failing_input=True)
+
+    # the extracted Coq trace predicates (Model/SvTrace.v) on the real observations: comparison + corpus + exhibit runs (judged above), and on the
+    # observations the MODEL predicts for the same schedules: there the theorems of Proofs/SvTraceP.v say "holds" (outside the two signatures)
+    tps["predicates"] = [p_ for p_ in PRED_ORDER if TRACE_PREDS[p_][0] == prop]
+    tps["theorems"] = sorted(set(TRACE_PREDS[p_][1] for p_ in tps["predicates"]))
+    try:
+        mt = trace_predicates(ctx, b, [f_ for f_ in files if f_ is not None])
+        mfalse = []
+        for sid_, t_ in sorted(mt.items()):
+            pv_, _pk = judge_predicates(prop, sid_, t_, new_tps())
+            if pv_:
+                mfalse.append((sid_, pv_[0][0], pv_[0][1]))
+        tps["model_traces"] = {"judged": len(mt), "false": len(mfalse)}
+        if mfalse:
+            sid_, idx_, text_ = mfalse[0]
+            ctx.violation({"broken": "trace-predicate self-test", "property": prop, "schedule": sid_, "item": idx_, "predicate_says": text_,
+                           "why": "Proofs/SvTraceP.v proves this predicate of every run of Msv: the extraction, the driver's reading of the schedule file or the "
+                                  "build is wrong; nothing may be concluded from this run"},
+                          "trace-predicate self-test: an extracted Coq predicate of %s is false on the model's own observations (schedule %s item %d: %s)"
+                          % (prop, sid_, idx_, text_[:300]), name="t2sv_predicate_selftest_%s.json" % _fname(sid_), no_failing_input=True)
+    except Exception as ex:  # noqa
+        tps["model_traces"] = {"judged": 0, "error": repr(ex)[:200]}
+    tps["rule"] = ("svdriver trace: per schedule the list (item, observation after it) as harness/svsched recorded it on the REAL server (goroutine statuses "
+                   "with what each goroutine is, lock table, timer-map keys, session table, listing, decoded state file; forced `wake` moves belong to the "
+                   "item before them; epilogue items included; thread ids renumbered); on it the extracted Gallina predicates of coq/Model/SvTrace.v, each "
+                   "proved of every run of Msv for every grouping of forced moves (coq/Proofs/SvTraceP.v); a false predicate of the property under check on a "
+                   "real trace is a violation like a Python oracle failure; q_c06_release false with sig_fleak / the F-OVER shape with the surplus in flight "
+                   "are the recorded findings")
+    tie["coq_trace_predicates"] = tps
 
     reported = 0
     seen_text = set()
@@ -1311,7 +1479,7 @@ def main(argv=None):
             print(log)
         e = execute(ctx, b, cf, "replay-run", procs=1)
         for p in props:
-            j = judge(p, e["runs"], e["chk"], e["failures"], e["images"])
+            j = judge(p, e["runs"], e["chk"], e["failures"], e["images"], tp=e.get("tp"))
             print(p, json.dumps(j, indent=1))
         if a.show:
             for r in e["runs"].values():
@@ -1332,6 +1500,8 @@ def main(argv=None):
                  tie["mismatches_in_projection"], tie["schedules_differing_outside_projection"], tie["schedules_failing_oracle"], tie["known_finding_reproductions"],
                  tie["hangs_or_fatal"], tie["model_labels_never_reached"], tie["yield_points_missing"], tie["sentinels_placed"]))
         print("    oracle self-test on the model's traces: %s" % json.dumps(tie.get("oracle_selftest")))
+        print("    extracted Coq trace predicates on the real observations: %s"
+              % json.dumps({k_: v_ for k_, v_ in tie.get("coq_trace_predicates", {}).items() if k_ != "rule"}))
     for fid, text in ctx.known:
         print("KNOWN-FINDING:", fid, text)
     for path, text, nfi in ctx.violations:
